@@ -2,12 +2,17 @@
 use vcommon::Args;
 
 mod c01;
+mod c02;
+mod c29;
+mod corrupt;
 
 fn main() {
     vcommon::install_panic_hook();
     let args = Args::parse();
     match args.stage.as_str() {
         "c01" => c01::run(&args),
+        "c02" => c02::run(&args),
+        "c29" => c29::run(&args),
         s => {
             eprintln!("unknown stage {s}");
             std::process::exit(2);
